@@ -592,16 +592,25 @@ def r7_mut_self(sig, body, log):
 
 
 def insert_proofs(body, proofs, log):
-    """proofs: list of (anchor_text, 'before'|'after', text). anchor must occur exactly once in code."""
+    """proofs: list of (anchor_text, 'before'|'after', text). anchor must occur exactly once in code.
+    An anchor starting with '~' is matched with every blank in it standing for one or more whitespace characters."""
     for (anchor, where, text) in proofs or []:
-        cnt = body.count(anchor)
-        if cnt != 1:
-            raise LostAnchor('proof anchor %r occurs %d times' % (anchor, cnt))
-        p = body.index(anchor)
-        if where == 'before':
-            body = body[:p] + text + '\n' + body[p:]
+        if anchor.startswith('~'):
+            pat = r'\s+'.join(re.escape(t) for t in anchor[1:].split())
+            ms = list(re.finditer(pat, body))
+            if len(ms) != 1:
+                raise LostAnchor('proof anchor %r occurs %d times' % (anchor, len(ms)))
+            a, b = ms[0].start(), ms[0].end()
         else:
-            body = body[:p + len(anchor)] + '\n' + text + '\n' + body[p + len(anchor):]
+            cnt = body.count(anchor)
+            if cnt != 1:
+                raise LostAnchor('proof anchor %r occurs %d times' % (anchor, cnt))
+            a = body.index(anchor)
+            b = a + len(anchor)
+        if where == 'before':
+            body = body[:a] + text + '\n' + body[a:]
+        else:
+            body = body[:b] + '\n' + text + '\n' + body[b:]
         log.append('proof block inserted %s %r' % (where, anchor[:40]))
     return body
 
@@ -666,6 +675,15 @@ def emit_fn(srcobj, name, impl=None, nth=0, contract='', loops=None, never_loop=
         if to_string:
             body = r1_to_string(body, log, to_string)
         for (a, b) in (subst or []):
+            if a.startswith('~'):
+                # whitespace-insensitive anchor
+                pat = r'\s*'.join(re.escape(t) for t in a[1:].split())
+                ms = list(re.finditer(pat, body))
+                if len(ms) != 1:
+                    raise LostAnchor('fn %s: replace anchor occurs %d times: %r' % (name, len(ms), ' '.join(a[1:].split())[:80]))
+                body = body[:ms[0].start()] + b + body[ms[0].end():]
+                log.append('subst %r -> %r' % (' '.join(a[1:].split()), b))
+                continue
             if a not in body:
                 raise LostAnchor('fn %s: substitution anchor %r not found' % (name, a))
             body = body.replace(a, b)
